@@ -60,7 +60,7 @@ def isSessEvent (e : Int) : Bool := decide (e = -1) || (decide (0 ≤ e) && deci
 def holdsC15Step (tmo : Nat) (pre post : Fsm) (e : Int) (now : Nat) : Bool :=
   if !isSessEvent e then true else
   if tmo = 0 ∨ now - pre.lastTs ≤ tmo then decide (post.state = sessSpec pre.state e)
-  else decide (post.state = 1) || decide (post.state = sessSpec 1 e)
+  else decide (post.state = 1)    -- expiry returns every state to Nascent; the input that found the session expired is not acted on
 
 /-! ## C13 — RepeatBand (documented constants NMAX = 10000, ALPHA = 45, BETA = 2). -/
 
@@ -78,6 +78,17 @@ def loadInterval (ni : Nat) : Nat := (4 * ni * 20 + 29) / 30
 /-- band_choose_hello_time observed: the Hello is scheduled no sooner than the load formula allows -/
 def holdsC13Choose (pre post : Band) (nowMs : Nat) : Bool :=
   decide (post.helloTs ≥ nowMs + loadInterval pre.ni) && decide (post.ni = pre.ni)
+
+/-- automata_tick observed on the RepeatBand state: when the tick ends a block (the block deadline is re-armed to
+    now + 300 ms) the count follows the formula and the next Hello is scheduled no sooner than the load formula
+    for the NEW count allows — also when the same tick has just sent a Hello -/
+def holdsC13Tick (pre post : Band) (nowMs : Nat) : Bool :=
+  if post.blockTs = nowMs + 300 ∧ post.blockTs ≠ pre.blockTs then
+    decide (post.r = 0) &&
+    (decide (post.ni = niFormula pre.r) || decide (post.ni = pre.ni)) &&
+    (if pre.r > 0 ∧ pre.begun then decide (post.ni = niFormula pre.r) else true) &&
+    decide (post.helloTs ≥ nowMs + loadInterval post.ni)
+  else true
 
 /-- monotonicity over two observed block ends after enumeration began -/
 def holdsC13Mono (r1 ni1 r2 ni2 : Nat) : Bool :=
